@@ -233,3 +233,26 @@ def dump_dot(workdir, module, cfg, timeout=1200, env=None, workers=1):
 
 def kill_stray():
     subprocess.run(["pkill", "-9", "-f", "tlc2[.]TLC"], stdout=subprocess.DEVNULL, stderr=subprocess.DEVNULL)
+
+
+def apalache(workdir, module, init, inv, length, timeout=1500):
+    """apalache-mc check --init=.. --inv=.. --length=..; returns "NoError" | "Error" | "Unknown" (tool problem / time-out)"""
+    import subprocess, shutil as _sh
+    exe = _sh.which("apalache-mc")
+    if not exe:
+        return "Unknown", "apalache-mc not found"
+    out_dir = os.path.join(workdir, "apa_%s_%s_%d" % (module, inv, length))
+    try:
+        p = subprocess.run(["timeout", "-k", "10", str(timeout), exe, "check", "--init=" + init, "--inv=" + inv, "--length=%d" % length,
+                            "--out-dir=" + out_dir, module + ".tla"], cwd=workdir, stdout=subprocess.PIPE, stderr=subprocess.STDOUT,
+                           stdin=subprocess.DEVNULL, text=True)
+        out = p.stdout
+    except Exception as ex:
+        return "Unknown", str(ex)
+    finally:
+        _sh.rmtree(out_dir, ignore_errors=True)
+    if "The outcome is: NoError" in out:
+        return "NoError", out[-600:]
+    if "The outcome is: Error" in out:
+        return "Error", out[-1500:]
+    return "Unknown", out[-1500:]
